@@ -21,9 +21,12 @@ pub const UNREACHABLE_LOCALITY: u8 = 0xff;
 
 impl SLIT {
     pub fn new(oem_id: [u8; 6], oem_table_id: [u8; 8], oem_revision: u32, localities: u32) -> Self {
-        let entry_count = localities * localities;
-        let length: u32 =
-            TableHeader::len() as u32 + entry_count + core::mem::size_of::<u64>() as u32;
+        let entry_count = localities
+            .checked_mul(localities)
+            .expect("too many localities");
+        let length: u32 = entry_count
+            .checked_add(TableHeader::len() as u32 + core::mem::size_of::<u64>() as u32)
+            .expect("too many localities");
 
         let mut header = TableHeader {
             signature: *b"SLIT",
